@@ -9,6 +9,7 @@ use crate::run::*;
 use crate::sc::{widen, Sc};
 use crate::spy::SpyCtl;
 use crate::zoo::*;
+
 use serde_json::json;
 
 /// F1: 2–3 decays with tau ratios in [3,6] (+ optional offset); F2: Gaussian peak + decay + offset; F3: single decay + offset
@@ -67,6 +68,28 @@ fn fit_case<T: Sc>(rng: &mut Rng, case: u64, out: &mut CaseOut) {
     let alpha0: Vec<f64> = alpha_true.iter().map(|a| a * (1.0 + 0.05 * rng.range(-1.0, 1.0))).collect();
     let model = if rng.chance(0.5) { ModelKind::Built(mspec) } else { ModelKind::Hand(mspec) };
     let spec = ProblemSpec { model, alpha0, y, w, eps: None, mrhs: s > 1 || rng.chance(0.2), par: rng.chance(0.3) };
+    // "identifiable" made operational: the model-function Jacobian [Phi | D_k c] at the generating
+    // parameters must be well conditioned after column scaling (kappa(H) <= 1e3) for every right-hand side
+    for col in 0..s {
+        let cc = Mat::from_cols(m, 1, c_true.col(col).to_vec());
+        let (_j, h) = crate::statfit::oracle_jacobians::<f64>(&spec, &alpha_true, &cc);
+        match crate::statfit::scaled_normal_matrix(&h) {
+            Some((_, _, kappa2)) if kappa2 <= 1e6 => {}
+            _ => {
+                out.inconcl("instance not identifiable (scaled condition number of the model Jacobian at the truth above 1e3)");
+                return;
+            }
+        }
+    }
+    judge_instance::<T>(out, stream, case, &spec, &alpha_true, fam, noiseless);
+}
+
+/// fit one instance of a certified family and decide it
+pub fn judge_instance<T: Sc>(out: &mut CaseOut, stream: &str, case: u64, spec: &ProblemSpec, alpha_true: &[f64], fam: &str, noiseless: bool) {
+    let spec = spec.clone();
+    let alpha_true = alpha_true.to_vec();
+    let n = spec.y.r;
+    let s = spec.y.c;
     out.seen("families", fam);
     out.seen("scalar", T::NAME);
     let Ok(prob) = build_problem::<T>(&spec, &SpyCtl::new()) else {
@@ -141,6 +164,24 @@ fn fit_case<T: Sc>(rng: &mut Rng, case: u64, out: &mut CaseOut) {
         }
         return;
     }
+    // KF-2: the optimizer (MINPACK defaults, step bound 100) can accept a first step that jumps across
+    // the pole tau = 0 of a decay constant and then runs off to tau -> -infinity (a collinear basis)
+    if let Some(ms) = spec.model.spec() {
+        let escaped = ms.basis.iter().any(|b| match b {
+            Basis::Exp(k) => alpha_hat[*k] * alpha_true[*k] < 0.0,
+            _ => false,
+        });
+        if escaped {
+            out.known.push(KnownHit {
+                stream: stream.into(),
+                case,
+                signature: "KF-2:decay-constant-crossed-its-pole".into(),
+                what: format!("{} — a decay constant changed sign during the fit (alpha*={alpha_true:?}, alpha^={alpha_hat:?})", problems.join("; ")),
+                detail: json!({"problem": spec.to_json(), "alpha_true": alpha_true, "alpha_hat": alpha_hat}),
+            });
+            return;
+        }
+    }
     // triage: was the dependency's SVD inaccurate at the returned point or anywhere on the trajectory?
     let Ok(twin) = build_problem::<T>(&spec, &SpyCtl::new()) else { return };
     let (_p, _rep, steps) = minimize_spied(&lm, twin);
@@ -166,10 +207,25 @@ fn fit_case<T: Sc>(rng: &mut Rng, case: u64, out: &mut CaseOut) {
         json!({"problem": spec.to_json(), "alpha_true": alpha_true, "alpha_hat": alpha_hat, "termination": fit.termination()}));
 }
 
+/// committed witnesses of known finding KF-2 (independent of VERIF_SEED)
+fn witness_case(_rng: &mut Rng, case: u64, out: &mut CaseOut) {
+    let path = format!("{}/witnesses/C05-KF2-{}.json", VERIF_DIR, ["a", "b"][case as usize % 2]);
+    let Ok(body) = std::fs::read_to_string(&path) else { return };
+    let Ok(j) = serde_json::from_str::<serde_json::Value>(&body) else { return };
+    let Some(spec) = ProblemSpec::from_json(&j["problem"]) else { return };
+    let alpha_true: Vec<f64> = j["alpha_true"].as_array().map(|a| a.iter().filter_map(|x| x.as_f64()).collect()).unwrap_or_default();
+    if j["scalar"] == "f32" {
+        judge_instance::<f32>(out, "kf2-witnesses", case, &spec, &alpha_true, "F2 witness", false);
+    } else {
+        judge_instance::<f64>(out, "kf2-witnesses", case, &spec, &alpha_true, "F2 witness", false);
+    }
+}
+
 pub fn run(ctx: &Ctx) {
+    ctx.run_cases("kf2-witnesses", 2, 30.0, witness_case);
     ctx.rule("certified families only: F1 two/three decays with tau ratios in [3,6], tau_1 in [0.5,2], x on [0,4·tau_max], N in [24,200], optional offset; F2 Gaussian peak (centre mid-range, width 5..20% of the range) + decay + offset; F3 single decay + offset; |c_j| in [0.5,5]; starts within 5% of the generating parameters; noise none or bounded uniform <= 1e-3 of the signal; weights none or in [0.5,2]; 1, 2 or 5 right-hand sides; builder-made and hand-written; f32/f64; sequential/parallel; default solver. Verdict: Ok; noiseless data reproduced to 1e-10·max|y| (1e-3 for f32); weighted SSQ <= SSQ at the generating parameters (rel 1e-9); |cos(J_k, r)| <= 1e-4 for noisy data. distinct = problem hash; every instance non-trivial");
     ctx.assume("the claim is limited to these families and ranges; it says nothing about global convergence");
     ctx.assume("a failing instance is attributed to KF-1 only if the dependency's SVD reconstruction error exceeded 16 eps somewhere on the optimizer's trajectory");
     let t = ctx.tier;
-    ctx.run_cases("families", t.pick(3000, 100000), t.pick(20.0, 200.0), |r, c, o| if c % 4 == 0 { fit_case::<f32>(r, c, o) } else { fit_case::<f64>(r, c, o) });
+    ctx.run_cases("families", t.pick(12000, 100000), t.pick(20.0, 200.0), |r, c, o| if c % 4 == 0 { fit_case::<f32>(r, c, o) } else { fit_case::<f64>(r, c, o) });
 }
